@@ -356,6 +356,10 @@ fn execute(case: &Case, plan: &[Fault], heal_after_first_failure: bool) -> RunOu
             // bookkeeping of what each handle's stream must contain
             match op {
                 Op::HCreate { h, path } | Op::HCreateNew { h, path } | Op::HOpen { h, path } => {
+                    if !matches!(op, Op::HOpen { .. }) && !matches!(got, Res::Skipped) {
+                        // (re)creating replaces whatever content was established before
+                        known.remove(path);
+                    }
                     if !is_err && !matches!(got, Res::Skipped) {
                         let content = if tainted.contains(path) {
                             None
